@@ -33,6 +33,9 @@ import (
 type Collector struct {
 	mu    sync.Mutex
 	stack ers.Stack
+	// resolved is the immutable snapshot of stack that Resolve
+	// hands out; it is replaced when errors were added since.
+	resolved *ers.Stack
 }
 
 // New constructs an empty Collector. Collectors can be used without
@@ -89,7 +92,17 @@ func (ec *Collector) Resolve() error {
 		return nil
 	}
 
-	return &ec.stack
+	// hand out a snapshot rather than a pointer into the guarded
+	// stack: later calls to Add modify the head node under the
+	// lock while the caller reads the returned error without it.
+	// Nodes behind the head are never modified once linked, so a
+	// copy of the head is a consistent, immutable view. The stack
+	// only grows, so the snapshot is current while the lengths agree.
+	if ec.resolved == nil || ec.resolved.Len() != ec.stack.Len() {
+		snapshot := ec.stack
+		ec.resolved = &snapshot
+	}
+	return ec.resolved
 }
 
 // HasErrors returns true if there are any underlying errors, and
